@@ -92,10 +92,25 @@ def _midpoint(a, b):
 
 def tag_of_request(req):
     q = req.get('query', '')
+    if is_use(req):
+        return q.strip()        # 'USE ks1' (the application's statement) / 'USE "ks1"' (the driver switching a connection)
     try:
         return int(q.split()[-1])
     except (ValueError, IndexError):
         return None
+
+
+def is_use(req):
+    return req.get('op') == 'QUERY' and req.get('query', '').strip().upper().startswith('USE ')
+
+
+def use_keyspace(req):
+    return req['query'].strip()[4:].strip().strip('"')
+
+
+def is_internal_use(req):
+    """Connection.set_keyspace_async/_blocking quote the name; the application statements of this world do not."""
+    return is_use(req) and '"' in req['query']
 
 
 def timer_owner(t):
@@ -134,8 +149,21 @@ class W9(ReqWorld):
         self.initial_highest = dict((c.vid, c.highest_request_id) for c in self.w.conns)
 
     # ---------------------------------------------------------------- wire observation
+    def _published(self, conn):
+        """conn is one of the connections a pool of the session currently hands out"""
+        for pool in list(self.session._pools.values()):
+            if conn is getattr(pool, '_connection', None) or conn in list(getattr(pool, '_connections', ())):
+                return True
+        return False
+
     def _hold9(self, conn, req):
         held = ReqWorld._hold(conn, req)
+        if not held and self.p.get('keyspaces') and is_use(req) and self._published(conn):
+            # a keyspace switch multiplexed on a connection in service (the application's USE and the USE
+            # Connection.set_keyspace_async sends): the explorer decides when it is answered.  USE on a connection
+            # that is still being opened (set_keyspace_blocking = wait_for_response, the opener blocks) is answered
+            # by the auto server like the rest of the handshake.
+            held = True
         if held:
             vid, stream, _ = self.server.received[-1]
             tag = tag_of_request(req)
@@ -173,10 +201,36 @@ class W9(ReqWorld):
     def observers(self, v):
         pass
 
+    def send_use(self, k):
+        """The application switches the session's keyspace: session.set_keyspace(ks) without the blocking wait."""
+        ks = self.p['keyspaces'][k]
+        f = self.session.execute_async(SimpleStatement('USE %s' % ks))
+        f._vtag = 'use%d:%s' % (len(self.futures), ks)
+        f._vuse = ks
+        f._vobs = Observer(f, self.w)
+        self.futures.append(f)
+        return f
+
+    def n_sent(self, use):
+        return len([f for f in self.futures if (getattr(f, '_vuse', None) is not None) == use])
+
     def answer(self, p):
         """The server answers held request p with the tag it received on that stream."""
-        if p.stream in p.conn.orphaned_request_ids and not (p.conn.is_closed or p.conn.is_defunct):
+        late = p.stream in p.conn.orphaned_request_ids and not (p.conn.is_closed or p.conn.is_defunct)
+        if late:
             self.flags.add('late')
+        if is_use(p.req):
+            before = len(self.arrivals)
+            internal = is_internal_use(p.req)
+            live = not (p.conn.is_closed or p.conn.is_defunct)
+            self.server.respond(p, wire.OP_RESULT, wire.result_set_keyspace(use_keyspace(p.req)), deliver=True)
+            if internal:
+                self.flags.add('use-switched')        # a connection in service was switched by a multiplexed USE
+            elif live and not late:
+                # the session now tells every pool; a connection already on that keyspace has nothing to send
+                sent = [a for a in self.arrivals[before:] if isinstance(a[2], str)]
+                self.flags.add('use-sent' if sent else 'use-noop')
+            return
         tag = tag_of_request(p.req)
         self.server.respond(p, wire.OP_RESULT, wire.result_rows(ROWS_COLS, [[tag]], p.req['version']), deliver=True)
 
@@ -244,11 +298,14 @@ class W9(ReqWorld):
     def enabled(self):
         p = self.p
         evs = []
-        if len(self.futures) < p.get('n_req', 4):
+        if self.n_sent(False) < p.get('n_req', 4):
             evs.append((('send',), 0))
-        for k in range(len(self.pending())):
+        if self.n_sent(True) < p.get('n_use', 0):
+            for k in range(len(p['keyspaces'])):
+                evs.append((('use', k), 0))
+        for k, q in enumerate(self.pending()):
             evs.append((('respond', k), 0))
-            if p.get('retry_kind'):
+            if p.get('retry_kind') and not is_internal_use(q.req):
                 evs.append((('respond', k, 'retry'), 0))
         for f, t in self.timeout_timers():
             evs.append((('timeout', self.futures.index(f)), 0))
@@ -268,6 +325,8 @@ class W9(ReqWorld):
         k = ev[0]
         if k == 'send':
             self.send()
+        elif k == 'use':
+            self.send_use(ev[1])
         elif k == 'respond':
             if len(ev) > 2:
                 self.answer_retry(self.pending()[ev[1]])
@@ -290,7 +349,7 @@ class W9(ReqWorld):
         now = self.w.clock._now
         conns = tuple((c.vid, c.is_control_connection, c.is_closed, c.is_defunct, c.in_flight, tuple(c.request_ids),
                        c.highest_request_id, tuple(sorted(c._requests, key=repr)), tuple(sorted(c.orphaned_request_ids, key=repr)),
-                       c.orphaned_threshold_reached, c.signaled_error) for c in self.w.conns)
+                       c.orphaned_threshold_reached, c.signaled_error, c.keyspace) for c in self.w.conns)
         futs = tuple((f._vtag, f._event.is_set(), len(o.results), len(o.errors), type(f._final_exception).__name__,
                       f._req_id, f._connection.vid if f._connection is not None else None)
                      for f, o in ((f, f._vobs) for f in self.futures))
@@ -303,8 +362,8 @@ class W9(ReqWorld):
             c = getattr(pool, '_connection', None)
             pools.append((type(pool).__name__, pool.is_shutdown, host.is_up, c.vid if c is not None else None,
                           getattr(pool, '_is_replacing', None), tuple(sorted(t.vid for t in getattr(pool, '_trash', ()))),
-                          tuple(sorted(x.vid for x in getattr(pool, '_connections', ())))))
-        return (conns, futs, pend, timers, tasks, scheds, tuple(pools), self.faults)
+                          tuple(sorted(x.vid for x in getattr(pool, '_connections', ()))), getattr(pool, '_keyspace', None)))
+        return (conns, futs, pend, timers, tasks, scheds, tuple(pools), self.faults, self.session.keyspace)
 
 
 # ---------------------------------------------------------------------------------------- oracle
@@ -330,6 +389,15 @@ def judge(st, part, data, site):
                        % (st.max_id, st.proto_max), data)
     # -- the application: a callback only ever sees the answer to its own request, once
     for f in list(st.futures):
+        if getattr(f, '_vuse', None) is not None:
+            # a keyspace switch completes with None (the set_keyspace result carries no rows to compare)
+            got = list(f._vobs.results)
+            if any(r is not None for r in got):
+                part.violation('C09/foreign-response/%s' % site, 'the keyspace switch %r received the response(s) %r (arrivals: %r)'
+                               % (f._vtag, got, st.arrivals), data)
+            elif len(got) > 1:
+                part.violation('C09/response-delivered-twice/%s' % site, 'keyspace switch %r completed %d times' % (f._vtag, len(got)), data)
+            continue
         tags = result_tags(f._vobs)
         foreign = [t for t in tags if t != f._vtag]
         if foreign:
